@@ -428,7 +428,12 @@ pub fn main(args: &Args) -> i32 {
                 let rq = match r.weighted(&weights) {
                     0 => Rq::Av { c, p: pick_id(&mut r), body: vec![65 + t as u8, r.next() as u8] },
                     1 => Rq::Gcv { c, p: pick_id(&mut r) },
-                    2 => Rq::As { c, v: pick_id(&mut r), body: vec![0x53, t as u8] },
+                    2 => {
+                        // snapshots mix: mostly versions inside the acceptance window, so that overlapping AddSnapshots
+                        // are both acceptable and their order matters
+                        let v = if mix == "asav" && !chain.is_empty() && r.chance(4, 5) { chain[chain.len() - 1 - r.below(chain.len().min(4))] } else { pick_id(&mut r) };
+                        Rq::As { c, v, body: vec![0x53, t as u8] }
+                    }
                     _ => Rq::Gs { c },
                 };
                 reqs.push(rq);
